@@ -359,6 +359,10 @@ def mk_dprec():
     rec.fields.append(Field(5, 'default', ('map', ('struct', rec, True), S('i32')), name='ByKey'))
     return rec
 
+# LGALL: one type with every container / element class, for the C17 harness (legacy controls must not change any result)
+LGALL = StructDef('LgAll', [Field(1, 'default', ('list', S('enum'))), Field(2, 'default', ('map', S('enum'), S('i16'))), Field(3, 'default', ('map', S('string'), S('enum'))),
+                            Field(4, 'default', ('set', S('double'))), Field(5, 'default', ('list', ('struct', LEAF, False))), Field(6, 'optional', S('i64'), ptr=True),
+                            Field(7, 'default', S('binary')), Field(8, 'default', ('map', S('i32'), ('struct', LEAF, True)))])
 DPREC = mk_dprec()
 DPSKIP = StructDef('DpSkip', [Field(1, 'default', S('i32'), name='V')], has_unknown=True)
 
